@@ -50,6 +50,8 @@ POOL_TEXT = {
     "pass_eps3": "S : a B C # top (1 2) ; B : C C # 0 ; C : # ce 2 | c # 0 | B b # bb (0)",
     "overlap_nullable": "S : b A y # s1 (1) | A z # s2 (0) ; A : B N c # a (0 1) ; B : b # b1 | b b # b2 ; N : # ne | n # 0",
     "stmt_chain_error": "P : P S # seq (0 1) | S # 0 ; S : p N2 ';' # top (1) | q N1 ';' ';' # top2 (1) | error # bad ; N2 : a # lit (0) | '-' N1 # n2 (1) ; N1 : '-' N0 # n1 (1) ; N0 : a # id (0)",
+    "twin_pass": "S : a B B b # x (1 2) ; B : C # 0 ; C : # e | c # f (0)",
+    "twin_pass2": "S : B B B # x (2 0 1) ; B : C # 0 | b B # bb (1) ; C : D # 0 ; D : # e 2 | d # f (0)",
     "if_stmt": "P : P T # seq (0 1) | T # 0 ; T : i c T # if (2) | i c T e T # ife (2 4) | x ';' # x | '{' P '}' # 1",
 }
 
